@@ -1,6 +1,6 @@
 (* Command dispatcher of the extracted engine. *)
 From Zorg Require Import Base.PyStr Base.Sexp Base.Res.
-From Zorg Require Import Model.FileGroups Model.Zid Model.Rename Model.Templates Model.SavedQ Model.ActionOpen Model.FileListener Model.NoteText Model.Executor Model.Move Model.QueryListener Model.Where.
+From Zorg Require Import Model.FileGroups Model.Zid Model.Rename Model.Templates Model.SavedQ Model.ActionOpen Model.FileListener Model.NoteText Model.Executor Model.Move Model.QueryListener Model.Where Model.WriteBack.
 
 Definition commands : list (str * (list sexp -> sexp)) :=
   [ (S "expand", cmd_expand)
@@ -24,6 +24,11 @@ Definition commands : list (str * (list sexp -> sexp)) :=
   ; (S "qlisten", cmd_qlisten)
   ; (S "process_query", cmd_process_query)
   ; (S "eval_where", cmd_eval_where)
+  ; (S "add_zid_to_line", cmd_add_zid_to_line)
+  ; (S "add_mdate", cmd_add_mdate)
+  ; (S "patch_body", cmd_patch_body)
+  ; (S "update_zo", cmd_update_zo)
+  ; (S "stamp", cmd_stamp)
   ].
 
 Fixpoint find_cmd (n : str) (l : list (str * (list sexp -> sexp))) : option (list sexp -> sexp) :=
